@@ -381,7 +381,12 @@ func (l *Lowerer) invClauses(ls *LoopSpec, hidden map[string]envEntry, kind stri
 		return
 	}
 	for _, c := range ls.Invs {
+		savedPos := l.specPos
+		if node != nil {
+			l.specPos = loopBodyPos(node)
+		}
 		t := l.specTerm(c, hidden)
+		l.specPos = savedPos
 		lbl := fmt.Sprintf("loop%d", ord)
 		if c.Label != "" {
 			lbl += "." + c.Label
@@ -390,11 +395,30 @@ func (l *Lowerer) invClauses(ls *LoopSpec, hidden map[string]envEntry, kind stri
 	}
 }
 
+func loopBodyPos(n ast.Node) token.Pos {
+	switch x := n.(type) {
+	case *ast.ForStmt:
+		return x.Body.Lbrace + 1
+	case *ast.RangeStmt:
+		return x.Body.Lbrace + 1
+	}
+	return n.Pos()
+}
+
 func clausePropsOr(fr *frame, c *Clause, def []string) []string {
 	if len(c.Props) > 0 {
 		return c.Props
 	}
 	return def
+}
+
+func (l *Lowerer) invAssumeAt(ls *LoopSpec, hidden map[string]envEntry, node ast.Node) {
+	savedPos := l.specPos
+	if node != nil {
+		l.specPos = loopBodyPos(node)
+	}
+	l.invAssume(ls, hidden)
+	l.specPos = savedPos
 }
 
 func (l *Lowerer) invAssume(ls *LoopSpec, hidden map[string]envEntry) {
@@ -504,7 +528,7 @@ func (l *Lowerer) forStmt(x *ast.ForStmt, label string) {
 	if cinv != nil {
 		l.assume(cinv)
 	}
-	l.invAssume(ls, nil)
+	l.invAssumeAt(ls, nil, x)
 	decVar := l.decreasesStart(ls, nil)
 	body := l.f.newBlock("body")
 	if x.Cond != nil {
@@ -692,7 +716,7 @@ func (l *Lowerer) rangeStmt(x *ast.RangeStmt, label string) {
 		l.cur = head
 		li.HavocAt = 0
 		l.assume(And(Le(IntLit(0), iv), Le(iv, n)))
-		l.invAssume(ls, hidden)
+		l.invAssumeAt(ls, hidden, x)
 		body := l.f.newBlock("body")
 		tb := l.f.newBlock("t")
 		fb := l.f.newBlock("f")
@@ -737,7 +761,7 @@ func (l *Lowerer) rangeStmt(x *ast.RangeStmt, label string) {
 		l.jump(head)
 		l.cur = head
 		li.HavocAt = 0
-		l.invAssume(ls, hidden)
+		l.invAssumeAt(ls, hidden, x)
 		dom, val, _ := l.mapVars(u)
 		body := l.f.newBlock("body")
 		done := l.f.newBlock("done")
@@ -777,7 +801,7 @@ func (l *Lowerer) rangeStmt(x *ast.RangeStmt, label string) {
 		l.jump(head)
 		l.cur = head
 		li.HavocAt = 0
-		l.invAssume(ls, nil)
+		l.invAssumeAt(ls, nil, x)
 		body := l.f.newBlock("body")
 		l.cur.Succs = append(l.cur.Succs, body, exit)
 		l.cur = body
@@ -798,7 +822,7 @@ func (l *Lowerer) rangeStmt(x *ast.RangeStmt, label string) {
 		l.jump(head)
 		l.cur = head
 		li.HavocAt = 0
-		l.invAssume(ls, nil)
+		l.invAssumeAt(ls, nil, x)
 		body := l.f.newBlock("body")
 		l.cur.Succs = append(l.cur.Succs, body, exit)
 		l.cur = body
@@ -1246,9 +1270,11 @@ func (l *Lowerer) trComposite(x *ast.CompositeLit, ptrTyp types.Type) (*Term, ty
 			r := l.alloc()
 			owner := l.p.structName(typ)
 			l.emit(&Stmt{Kind: SAllocZero, Struct: owner, Ref: r})
+			l.initializing[r.String()] = true
 			for i := 0; i < u.NumFields(); i++ {
 				l.store(&place{kind: pHeap, ref: r, owner: owner, path: u.Field(i).Name(), typ: u.Field(i).Type()}, vals[i])
 			}
+			delete(l.initializing, r.String())
 			return r, ptrTyp
 		}
 		s := l.p.sortOf(typ)
@@ -1466,15 +1492,49 @@ func (l *Lowerer) chanClose(ch *Term, chExpr ast.Expr, node ast.Node) {
 	l.assign(hv.Name, hv.Sort, Store(hv, ch, tTrue))
 }
 
-// lockOp: monitor discipline hooks (ghost held flag per lock identity).
+// lockOp: monitor discipline. Acquiring a lock that guards fields (declared with `guarded`) havocs those
+// fields of the owner (other goroutines may have changed them) and records the state acq(...) refers to;
+// while the lock is held the fields are this goroutine's alone (mutex atomicity, A-conc).
 func (l *Lowerer) lockOp(lock *Term, acquire bool, node ast.Node) {
 	if lock == nil {
 		return
 	}
 	hv := l.heapVar("F.$lock.held", "Bool")
-	if acquire {
-		l.assign(hv.Name, hv.Sort, Store(hv, lock, tTrue))
-	} else {
+	if !acquire {
 		l.assign(hv.Name, hv.Sort, Store(hv, lock, tFalse))
+		return
+	}
+	l.assign(hv.Name, hv.Sort, Store(hv, lock, tTrue))
+	if strings.HasPrefix(lock.Op, "addr.") && len(lock.Args) == 1 {
+		key := strings.TrimPrefix(lock.Op, "addr.")
+		if fields, ok := l.p.guardedBy[key]; ok {
+			owner := key[:strings.LastIndex(key, ".")]
+			for _, f := range fields {
+				name := l.fieldHeapName(owner, f)
+				srt, known := l.f.Vars[name]
+				if !known {
+					// declare lazily with the field's sort
+					if t := l.p.fieldType(owner, f); t != nil {
+						srt = arraySort("Int", l.p.sortOf(t))
+						l.f.declare(name, srt)
+						l.f.HeapVars[name] = true
+						l.p.heapVarTypes[name] = t
+					} else {
+						continue
+					}
+				}
+				es := arrayElemSort(srt)
+				tn := l.tmp(es)
+				l.havoc(tn, es)
+				if t, ok := l.p.heapVarTypes[name]; ok {
+					l.wf(V(tn, es), t)
+				}
+				l.assign(name, srt, Store(V(name, srt), lock.Args[0], V(tn, es)))
+			}
+			l.note("A-conc: fields guarded by " + key + " are havocked when the lock is acquired; contracts speak about the critical section (acq(...) = state at acquisition)")
+		}
+	}
+	if l.cur != nil {
+		l.acqPoints = append(l.acqPoints, acqPoint{l.cur, len(l.cur.Stmts)})
 	}
 }
